@@ -20,6 +20,7 @@ from .transforms import (
 )
 from .utils import (
     AspireFile,
+    _dtype_to_name,
     function_id,
     load_from_h5_file,
     recursively_save_to_h5_file,
@@ -729,6 +730,7 @@ class Aspire:
             "flow_backend": self.flow_backend,
             "flow_kwargs": self.flow_kwargs,
             "eps": self.eps,
+            "dtype": _dtype_to_name(self.dtype),
         }
         if hasattr(self, "_last_sampler_type"):
             config["sampler_type"] = self._last_sampler_type
